@@ -4,6 +4,7 @@
 cd /verif
 for d in seeded/*/; do
   name=$(basename $d)
+  [ -f $d/meta.json ] || continue
   prop=$(python3 -c "import json;print(json.load(open('$d/meta.json'))['property'])")
   timeout 3000 tools/seedcheck.py $d --name $name --prop $prop --checks $prop 2>&1 | grep "quick:\|NOT confirmed" | sed "s/^/$name /"
 done
